@@ -16,6 +16,21 @@ reader / state / event sweep - a twin node that stored the current chain directl
 test is restarted (new Blockchain object on the same store, with or without a written filter
 snapshot) at random points, in particular right before RevertHead / Store; after every step all
 event queries (unfiltered, by emitter, by key, paged) must equal a naive scan of the chain's receipts.
+
+Window dimension (spec/chain/RevertWin.tla): the per-block event blooms are aggregated in windows of
+8192 blocks; storing block k*8192+8191 persists the window's filter, reverting it must re-open the
+window (persisted copy deleted, cached copy purged). Every transition of the model is a function on
+node records, so the node that followed the current chain directly is a term (TwinOf) and the
+properties are C04's own statement: DiskAsTwin, RunningAsTwin, AnswersAsTwin (every filter x range),
+NextAsTwin (the node accepts what the twin accepts), CacheFresh, WRestartIsNoOp - exhaustive with
+W = 3 / 4 over stores, reverts across two boundaries, cache-warming queries, graceful / crash
+restarts; expected-violation configurations for each mechanism (purge offset, re-opened window left
+on disk, snapshot not consumed). Binding: TLC-simulated behaviours on the real geometry (W = 8192,
+base image of 8190 blocks, modelled blocks 8190..8194) are selected to cover the (situation,
+action, situation) triples of the model and replayed on real nodes of both backends; after every
+step the result and the disk (height, persisted windows and their bits, snapshot) are compared
+with the specification and the whole database with a twin node; at the model's Query / Sweep steps
+the event answers with the twin's and the specification's.
 """
 import json
 import vlib
@@ -30,6 +45,106 @@ def corrupt_idx(b):
         return False
     b["steps"][-1]["idx"]["height"] += 1
     return True
+
+
+WIN_EXPECTED = [   # (cfg, violated invariant, label)
+    ("Revert_win_x_purgefirst.cfg", "AnswersAsTwin", "cache purged only when the first block of a window is reverted"),
+    ("Revert_win_x_keepwindow.cfg", "DiskAsTwin", "re-opened window left on disk"),
+    ("Revert_win_x_keepwindow_next.cfg", "NextAsTwin", "re-opened window left on disk, then crash: Store refused"),
+    ("Revert_win_x_snapshot.cfg", "AnswersAsTwin", "shutdown snapshot not consumed"),
+]
+WIN_EXPECTED_THOROUGH = [
+    ("Revert_win_x_purgeallbutlast.cfg", "AnswersAsTwin", "cache purged at every offset but the last block of a window"),
+]
+
+
+def win_features(b):
+    """(situation before, action, situation after) triples of one window behaviour. A situation is
+    the model's own tag of the state (head position relative to the window boundary, running
+    filter initialised?, cache warm?, snapshot on disk?); an action is its name plus, for a query,
+    whether it reaches below the running window."""
+    out = set()
+    prev = ("init",)
+    for st in b:
+        a = st["a"]
+        name = a["name"]
+        if name == "Restart":
+            name += ":graceful" if a.get("graceful") else ":crash"
+        elif name == "Store":
+            name += ":events" if a.get("blk") else ":empty"
+        t = st["tag"]
+        cur = (t["pos"], t["hot"], t["warm"], t["snap"])
+        out.add((prev, name, cur))
+        prev = cur
+    return out
+
+
+def win_behaviours(ctx, n_pick, runs, depth):
+    """Many cheap simulated behaviours, of which a greedy cover of the situation triples is kept
+    (ties and the remainder in generation order, so the choice is deterministic per seed)."""
+    pool = []
+    for i in range(runs):
+        pool += ctx.tlc_simulate("chain", "RevertWinMBT.tla", "Revert_win_sim.cfg", depth=depth,
+                                 seed=ctx.seed * 1000 + 700 + i, timeout=600)
+    feats = [win_features(b) for b in pool]
+    universe = set().union(*feats)
+    covered, picked = set(), []
+    while len(picked) < n_pick:
+        best, gain = None, 0
+        for i, f in enumerate(feats):
+            if i in picked:
+                continue
+            g = len(f - covered)
+            if g > gain:
+                best, gain = i, g
+        if best is None:
+            break
+        picked.append(best)
+        covered |= feats[best]
+    for i in range(len(pool)):            # room left: fill with the first behaviours not yet picked
+        if len(picked) >= n_pick:
+            break
+        if i not in picked:
+            picked.append(i)
+    ctx.coverage["window_situation_triples"] = "%d of %d seen in %d generated behaviours" % (len(covered), len(universe), len(pool))
+    return [{"seed": ctx.seed * 100000 + 70000 + i, "steps": pool[i]} for i in picked]
+
+
+def corrupt_window(b):
+    """Claim a persisted window the chain has not completed."""
+    st = b["steps"][-1]["st"]
+    st["pers"] = st["pers"] + [{"w": 7, "bits": []}]
+    return True
+
+
+def window_part(ctx, binary, thorough):
+    """spec/chain/RevertWin.tla: the window boundary of the event index under Store / Revert / Restart / Query."""
+    ctx.tlc_check("chain", "MCRevertWin.tla", "Revert_win_quick.cfg", timeout=900)
+    for cfg, inv, label in WIN_EXPECTED + (WIN_EXPECTED_THOROUGH if thorough else []):
+        r = ctx.tlc_check("chain", "MCRevertWin.tla", cfg, timeout=900, expect_violation=True,
+                          label="window: %s (violation expected)" % label)
+        if r["violated"] != inv:
+            raise vlib.Broken("%s should violate %s, got %s" % (cfg, inv, r["violated"]))
+    if thorough:
+        r = ctx.tlc_check("chain", "MCRevertWin.tla", "Revert_win_thorough.cfg", timeout=3000, coverage=True)
+        vlib.require_actions_covered(r, ignore=("Sweep",))
+        ctx.tlc_check("chain", "MCRevertWin.tla", "Revert_win_w4.cfg", timeout=3000)
+        ctx.tlc_check("chain", "MCRevertWin.tla", "Revert_win_minpurge.cfg", timeout=900)
+    wbs = win_behaviours(ctx, 60 if thorough else 14, 3 if thorough else 1, 15 * (400 if thorough else 300))
+    payload = {"w": 8192, "base": 8190, "behaviours": wbs}
+    res = run_engine_keep(ctx, binary, "TestRevertWindowReplay", payload, timeout=3000)
+    ctx.absorb(res, "statehist", "TestRevertWindowReplay")
+    ctx.coverage["window_behaviours"] = len(wbs)
+    return wbs
+
+
+def win_selftest(ctx, binary, wbs):
+    c = json.loads(json.dumps(wbs[0]))
+    corrupt_window(c)
+    res = ctx.run_engine(binary, "TestRevertWindowReplay", {"w": 8192, "base": 8190, "behaviours": [c], "backends": ["new"]})
+    if not res.get("divergences"):
+        raise vlib.Broken("binding self-test: TestRevertWindowReplay accepted a behaviour with a falsified expectation")
+    ctx.coverage["selftest_window"] = "falsified expectation rejected (%s)" % res["divergences"][0]["key"]
 
 
 def run(ctx):
@@ -73,9 +188,12 @@ def run(ctx):
     ctx.absorb(cres, "statehist", "TestHistConcurrent")
     report_observations(ctx, cres)
     ctx.coverage["concurrent_rounds"] = cres.get("replayed", 0)
+    # the window boundary of the event index (RevertWin.tla) on the real geometry
+    wbs = window_part(ctx, binary, thorough)
     # the binding self-test comes last: it can only turn a clean run into Broken, never hide a violation
     if not ctx.violations:
         selftest(ctx, binary, "TestRevertReplay", bs, corrupt_idx)
+        win_selftest(ctx, binary, wbs)
     note_unreproduced(ctx)
     ctx.coverage["behaviours_generated"] = len(bs)
     ctx.coverage["steps_replayed"] = res.get("steps", 0)
@@ -84,7 +202,8 @@ def run(ctx):
         "a transaction hash occurs at most once on a chain (it may return on another fork)",
         "system contracts 0x1/0x2 never receive a zero write (SysZeroWrites = FALSE)",
         "a class is declared at most once per chain and every class definition a block delivers is listed in its declared classes",
-        "chains stay inside one bloom-filter window (8192 blocks); the running event filter is compared through event queries",
+        "the state / index alphabet of Revert.tla is replayed inside one bloom-filter window; the window boundary (8191|8192) is covered by RevertWin.tla with plain blocks that carry events and one storage write",
+        "between the steps of a window behaviour nothing is read through the node (an event query warms its cache of persisted windows, which is model state); a twin is never restarted and never reverts",
         "databases compared as complete key/value dumps of db/memory; pebble equivalence is C15",
         "values returned by the API (blocks, state updates, transactions, receipts, commitments, reverse diffs, class definitions) and the inputs of Store are re-encoded after every later step and must not have changed",
         "after a Restart step nothing is read through the new process before the next step (so that step is its first operation)",
